@@ -10,6 +10,7 @@
 from __future__ import annotations
 
 import json
+import os
 import lzma
 import shutil
 import struct
@@ -45,7 +46,7 @@ def totality(cfg: Tuple[int, int, int]) -> Dict[str, Any]:
     w, version, n = cfg
     from flipjump.utils.exceptions import FlipJumpReadFjmException
     W = 96
-    E = Engine(W, timeout_ms=120_000)
+    E = Engine(W, timeout_ms=120_000, max_paths=20000)
     tag = f'total/w{w}/v{version}/len{n}'
     head = header12(w, version)
     wb = max(w // 8, 1) if w in (8, 16, 32, 64) else 1
@@ -113,7 +114,7 @@ def torn(cfg: Tuple[int, int, Tuple[str, Any]]) -> Dict[str, Any]:
     from flipjump.fjm.fjm_writer import Writer
     from flipjump.utils.exceptions import FlipJumpReadFjmException, FlipJumpWriteFjmException
     W = 96
-    E = Engine(W, timeout_ms=120_000)
+    E = Engine(W, timeout_ms=120_000, max_paths=20000)
     tag = f'torn/w{w}/v{version}/{sname}'
     stats = {'prefixes': 0, 'rejected': 0, 'same_image': 0}
 
@@ -205,7 +206,7 @@ def consistency(cfg: Tuple[int, int, int, int]) -> Dict[str, Any]:
     w, version, nseg, pool = cfg
     from flipjump.utils.exceptions import FlipJumpReadFjmException
     W = 96
-    E = Engine(W, timeout_ms=120_000)
+    E = Engine(W, timeout_ms=120_000, max_paths=20000)
     tag = f'table/w{w}/v{version}/segs{nseg}/pool{pool}'
     U64 = (1 << 64) - 1
 
@@ -421,4 +422,5 @@ def run(report: Report, tier: str, only: Optional[str] = None) -> None:
     report.require_witnesses('total:loaded', 'total:rejected', 'torn:rejected', 'torn:accepted-same-image', 'table:accepted',
                              'table:rejected')
     validate_lzma_assumption(report)
+    os.environ.setdefault('FJV_MAX_SECONDS', '600')        # one file length / shape never needs more than seconds on the unchanged tree
     common.run_pool(_dispatch, items, report, chunksize=4)
